@@ -29,6 +29,17 @@ CLAIMS = {
     },
 }
 
+CLAIMS["C19"] = {
+    "text": "Proof by the type system that no state is shared between searches: Regex/Match/Error/Flags are Send+Sync (compile-pass witness "
+            "with a compile-fail twin), a deep type walk from Regex/Match/Error/CompiledRegex reaches no UnsafeCell, raw pointer, &mut or dyn "
+            "(third-party fields included), no static is mutable / non-Freeze / thread-local, every public method takes &self, executors hold "
+            "&CompiledRegex, and user-written *mut casts / transmutes are exactly the triaged set. With these, safe or audited-unsafe code cannot "
+            "write through &Regex and nothing outlives a search, so concurrent results equal sequential ones.",
+    "note": COMMON_NOTE + "Assumes std's own unsafe code is sound and that the one triaged cast (RefPosition::new, haystack pointer) is never written through.",
+    "technique": "type-level proof: trait-solver auto-trait queries + deep field-type walk + compile-pass/compile-fail witness + MIR cast inventory",
+    "design_ref": "DESIGN.md §3 TYPES, §4 C19",
+}
+
 PENDING = "rules for this property are designed (DESIGN.md §3/§4) but not built yet; nothing is claimed until they exist"
 
 NOT_APPLICABLE = {("C%02d" % i): PENDING for i in range(1, 21)}
